@@ -127,7 +127,7 @@ func preBlock(fw *formatWriter, source []byte, cursor *commonmark.Cursor) (child
 		fw.s(curr.Child(0).Inline().LinkReference())
 		fw.s("]: ")
 		if dst := commonmark.NormalizeURI(curr.Child(1).Inline().Text(source)); dst != "" {
-			fw.s(dst)
+			fw.s(destinationEscaper.Replace(dst))
 		} else {
 			fw.s("<>")
 		}
@@ -280,7 +280,7 @@ func postInline(fw *formatWriter, source []byte, cursor *commonmark.Cursor) {
 			fw.s("(")
 			title := child.LinkTitle()
 			if dst := child.LinkDestination(); dst != nil {
-				fw.s(commonmark.NormalizeURI(dst.Text(source)))
+				fw.s(destinationEscaper.Replace(commonmark.NormalizeURI(dst.Text(source))))
 				if title != nil {
 					fw.s(" ")
 				}
@@ -294,6 +294,10 @@ func postInline(fw *formatWriter, source []byte, cursor *commonmark.Cursor) {
 		}
 	}
 }
+
+// destinationEscaper escapes the characters of a normalized URI
+// that would end a link destination written without angle brackets.
+var destinationEscaper = strings.NewReplacer("(", `\(`, ")", `\)`)
 
 func isShortcutLinkOrImage(inline *commonmark.Inline) bool {
 	if k := inline.Kind(); k != commonmark.LinkKind && k != commonmark.ImageKind || inline.ChildCount() == 0 {
